@@ -4,7 +4,9 @@ From Verif Require Import Base.Prelude Base.PySort Model.ToHashable Model.ToHash
 
 Inductive case :=
 | CPair (fp : bool) (v w : pyval)        (* to_hashable(v, fp) vs to_hashable(w, fp) *)
-| CMemo (args : list pyval)              (* f = memoize()(body); f(a) for a in args; which body run produced each result *)
+| CMemo (args : list pyval)              (* f = memoize()(body); each element is ONE CALL, the value (args, kwargs) =
+                                            PTuple [PTuple positional; PDict [(PStr name, value); ..]] (kwargs in call
+                                            order): f is called with them; which body run produced each result *)
 | CPickle (v : pyval)                    (* _pickle_key(to_hashable(v)) (DiskCache file name) in two interpreters *)
 | CRekey (v w : pyval).                  (* x = build v; k0 = key(x); mutate the SAME object x in place into w; k1 = key(x) *)
 
@@ -22,8 +24,9 @@ Definition run_pair (fp : bool) (v w : pyval) : sx :=
        match kv, kw with Ok a, Ok b => SB (py_eq a b) | _, _ => SNone end;
        obs_stable kv; obs_stable kw ].
 
-(* memoize with the default SimpleCache: key = to_hashable((args, kwargs)); `key in cache` hashes the key *)
-Definition memo_key (a : pyval) : result pyval := to_hashable true (PTuple [PTuple [a]; PDict []]).
+(* memoize with the default SimpleCache: key = try_to_hashable((args, kwargs)) - the PAIR of the positional tuple and
+   the keyword dict, exactly the call value; `key in cache` hashes the key *)
+Definition memo_key (call : pyval) : result pyval := to_hashable true call.
 Fixpoint memo_find (k : pyval) (store : list (pyval * nat)) : option nat :=
   match store with
   | [] => None
